@@ -225,7 +225,7 @@ def gen_spec(rng, profile=None, uid=None):
     def inline_ref(owner_kind):
         r = rng.random()
         if r < 0.55:
-            nm = f"nm{next(namen)}"
+            nm = ("_" if rng.random() < P.get("p_underscore_names", 0.1) else "") + f"nm{next(namen)}"
             provs = [p for p in providers if rng.random() < (0.8 if p == "sm" else 0.35)] or ["sm"]
             for p in provs:
                 new_cb(nm, p, "method")
